@@ -444,7 +444,9 @@ def bfs_desc(prog):
         raise HarnessError("bfs variant %r" % variant)
     if order == "default":
         del d["order"]
-    return [int_desc("U8", "pre"), d, int_desc("U16BE", "post")]
+    # the neighbours keep one value in the product (0xa5 / 0xa5a5: a 1 and a 0 next to the set on either side is
+    # covered by the two bit orders); the over-wide cases run with all-zero and all-one neighbours as well
+    return [dict(int_desc("U8", "pre"), hold=True), d, dict(int_desc("U16BE", "post"), hold=True)]
 
 
 NEST_MENU = ["U8", "U16LE", "I8neg", "B1", "BFS8"]
@@ -581,7 +583,9 @@ def slots(descs, size, prefix=()):
         t = f["t"]
         opt = prefix + (f["opt"],) if "opt" in f else None
         if t == "int":
-            if "derive" not in f:
+            if f.get("hold"):
+                out.append((prefix + (f["n"],), [pattern(8 * f["len"])], opt))
+            elif "derive" not in f:
                 out.append((prefix + (f["n"],), int_values(f, size), opt))
         elif t == "buf":
             out.append((prefix + (f["n"],), buf_values(f, size), opt))
@@ -692,14 +696,15 @@ def subset(a, b):
 # judging one program
 
 class Judge:
-    def __init__(self, prog, size):
+    def __init__(self, prog, size, ndiag=5):
         self.prog = prog
         self.size = size
+        self.ndiag = ndiag
         self.out = []
         self.cov = {"programs": 1, "assignments": 0, "error_cases": 0, "truncations": 0, "trailing": 0,
                     "illegal_values": 0, "fixed_flips": 0, "noncanonical": 0, "overwide": 0, "evaluations": 0,
                     "octets_encoded": 0, "valid_prefixes": 0}
-        self.case = {"prog": prog, "size": size}
+        self.case = {"prog": prog, "size": size, "ndiag": ndiag}
 
     def viol(self, law, kind, msg):
         self.out.append(("C16:%s:%s" % (law, kind), self.case, "%s: %s" % (self.prog_name(), msg)))
@@ -720,7 +725,7 @@ class Judge:
         self.DecodeError, self.EncodeError = C.DecodeError, C.EncodeError
         for vals in assignments(descs, self.size):
             self.roundtrip(vals)
-        diag = diagonal(descs)
+        diag = diagonal(descs)[:self.ndiag]
         for vals in diag:
             self.decode_faults(vals)
         pv = pattern_vals(descs)
@@ -841,7 +846,7 @@ class Judge:
             self.cov["truncations"] += 1
             self.cov["error_cases" if exp is None else "valid_prefixes"] += 1
         # trailing octets: rejected when length checking is on, left alone (consumed = declared length) when off
-        for tail in (b"\x00", b"\xff", b"\x01\x02\x03"):
+        for tail in (b"\x00", b"\xa5\x5a\xc3"):
             exp = self.compare_decode(self.E, True, ref + tail, "trailing", "check_len=on")
             self.compare_decode(self.E0, False, ref + tail, "trailing", "check_len=off")
             self.cov["trailing"] += 2
@@ -955,9 +960,18 @@ class Judge:
                     continue        # the definition's own get_pres callback looks at the supplied (untruncated) value
                 else:
                     hi = (1 << bl) - 1
-                    for wide in (hi + 1, (hi + 1) | pattern(bl), (1 << (bl + 3)) - 1, (1 << 40) | 1, (hi + 1) * 3 + hi):
+                    wides = [(w, None) for w in (hi + 1, (hi + 1) | pattern(bl), (1 << (bl + 3)) - 1, (1 << 40) | 1,
+                                                 (hi + 1) * 3 + hi)]
+                    holds = [h for h in self.descs if h.get("hold")]
+                    if holds:
+                        wides += [(w, nb) for w in ((1 << (bl + 3)) - 1, (hi + 1) | pattern(bl)) for nb in (0, 1)]
+                    for wide, nb in wides:
                         vals = deep_copy(pv)
                         vals[name] = wide
+                        expw = dict(exp)
+                        if nb is not None:
+                            for h in holds:
+                                vals[h["n"]] = expw[h["n"]] = int_range(h)[nb]
                         self.cov["overwide"] += 1
                         self.cov["evaluations"] += 1
                         want = r_pack(self.descs, vals)
@@ -975,7 +989,7 @@ class Judge:
                                       "truncated to its width, neighbours intact)" % (wide, bl, name, b.hex(), want.hex()))
                             continue
                         r = self.decode(self.E, b)
-                        e2 = dict(exp)
+                        e2 = dict(expw)
                         e2[name] = wide & hi
                         if r[0] != "ok" or r[1] != e2:
                             self.viol("overwide:decode", f.get("kind", "bits"),
@@ -1004,8 +1018,24 @@ class Judge:
                       % (data.hex(), again.hex(), ref.hex()))
 
 
-def judge_prog(prog, size):
-    return Judge(prog, size).run()
+def judge_prog(prog, size, ndiag=5):
+    return Judge(prog, size, ndiag).run()
+
+
+def pick_size(prog, maxsize, cap):
+    """largest boundary-set size in {5, 3, 2} (<= maxsize) whose complete product has <= cap assignments"""
+    if prog[0] == "seq":
+        return maxsize
+    descs = make_desc(prog)
+    for size in (5, 3, 2):
+        if size > maxsize:
+            continue
+        n = 1
+        for _, values, _ in slots(descs, size):
+            n *= len(values)
+        if n <= cap:
+            return size
+    return 2
 
 
 # ---------------------------------------------------------------------------
@@ -1034,6 +1064,9 @@ def bfs_programs(quick):
                 if quick and total > 8 and k == 4:
                     if total == 16:
                         yield ["bfs", total, widths, order, "plain", 0]
+                    continue
+                if order in ("default", "little") and quick:
+                    yield ["bfs", total, widths, order, "plain", 0]        # alternative spellings of msb / lsb
                     continue
                 yield ["bfs", total, widths, order, "plain", 0]
                 yield ["bfs", total, widths, order, "pad", 0]
@@ -1104,28 +1137,33 @@ def shape_of(prog):
     return ("seq", prog[2], "TLV" if prog[3] == "TLV" else tuple(sorted(prog[3])))
 
 
+CAP_QUICK = 700
+CAP_THOROUGH_4 = 1300
+NOCAP = 1 << 40
+
+
 def all_programs(quick):
-    """[(program, boundary set size)]"""
+    """[(program, largest boundary set size, cap on the number of assignments)]"""
     progs = []
     for p in env_programs(3):
-        progs.append((p, 5))
+        progs.append((p, 5, CAP_QUICK if quick else NOCAP))
     if not quick:
         for kinds in itertools.product(ENV_ATOMS, repeat=4):
             if any(x in TRAILING_ONLY for x in kinds[:-1]) or env_desc(kinds) is None:
                 continue
-            progs.append((["env", list(kinds)], 3))
+            progs.append((["env", list(kinds)], 5, CAP_THOROUGH_4))
     for p in bfs_programs(quick):
-        progs.append((p, 5))
+        progs.append((p, 5, NOCAP))
     seen = set()
     for p in nest_programs(quick, small=True):
         seen.add(repr(p))
-        progs.append((p, 3 if (len(p[1]) == 1 or not quick) else 2))
+        progs.append((p, 3 if (len(p[1]) == 1 or not quick) else 2, NOCAP))
     if not quick:
         for p in nest_programs(quick, small=False):
             if repr(p) not in seen:
-                progs.append((p, 3 if len(p[1]) == 1 else 2))
+                progs.append((p, 3 if len(p[1]) == 1 else 2, NOCAP))
     for p in seq_programs(quick):
-        progs.append((p, 5))
+        progs.append((p, 5, NOCAP))
     return progs
 
 
@@ -1133,8 +1171,11 @@ def work(chunk):
     cov = {}
     out = []
     sample = None
-    for prog, size in chunk:
-        j = judge_prog(prog, size)
+    chunk, ndiag = chunk
+    for prog, maxsize, cap in chunk:
+        size = pick_size(prog, maxsize, cap)
+        j = judge_prog(prog, size, ndiag)
+        cov["programs_set%d" % size] = cov.get("programs_set%d" % size, 0) + 1
         for k, v in j.cov.items():
             cov[k] = cov.get(k, 0) + v
         kind = "programs_" + prog[0]
@@ -1148,23 +1189,30 @@ def work(chunk):
     return res
 
 
+WEIGHT = {"S1": 1, "S3": 1, "FLG": 10, "BFS16L": 25, "BFS24P": 25, "NEST": 25, "NESTF": 25}
+
+
 def cost(p):
-    prog, size = p
+    """rough number of assignments, for balancing the work chunks only"""
+    prog, size, cap = p
     if prog[0] == "env":
-        return size ** len(prog[1])
+        n = 1
+        for k in prog[1]:
+            n *= WEIGHT.get(k, 5)
+        return min(n, cap) + 40
     if prog[0] == "bfs":
-        return 5 ** min(len(prog[2]), 4)
+        return min(5 ** min(len(prog[2]), 4), 256 if prog[1] == 8 else 625) + 60
     if prog[0] == "nest":
         return size ** (2 * len(prog[1]) + 2) * 2
-    return 800
+    return 3000
 
 
 def run(ctx):
     progs = all_programs(ctx.quick)
-    shapes = set(shape_of(p) for p, _ in progs)
+    shapes = set(shape_of(p[0]) for p in progs)
     # chunks of roughly equal cost, in a deterministic order
     chunks, cur, acc = [], [], 0
-    target = 60000 if ctx.quick else 400000
+    target = 40000 if ctx.quick else 250000
     for p in progs:
         cur.append(p)
         acc += cost(p)
@@ -1173,7 +1221,8 @@ def run(ctx):
             cur, acc = [], 0
     if cur:
         chunks.append(cur)
-    for r in ctx.pmap(work, chunks, chunksize=1):
+    ndiag = 3 if ctx.quick else 5
+    for r in ctx.pmap(work, [(ch, ndiag) for ch in chunks], chunksize=1):
         ctx.merge(r)
     c = ctx.cov
     c["shapes"] = len(shapes)
@@ -1187,8 +1236,8 @@ def run(ctx):
                  "(fix/ref/flex at every level, %d-atom level menu); sequences of 26 two-field items x 3 prefixes x "
                  "{trailing, length-prefixed}. Per definition: the complete product of every field's boundary set "
                  "{min, min+1, 0xA5.. pattern, max-1, max} (nest programs%s: {min, pattern, max}; sequence programs: "
-                 "0 elements, 1 element x all item assignments, 2 x 3-value sets, 3 x 2-value sets), then for the 5 "
-                 "diagonal assignments every truncation offset, 3 trailing strings with length checking on and off, and "
+                 "0 elements, 1 element x all item assignments, 2 x 3-value sets, 3 x 2-value sets), then for %d "
+                 "diagonal assignments every truncation offset, 2 trailing strings with length checking on and off, and "
                  "for the pattern assignment min-1/max+1 of every integer, fixed buffers one octet short/long, every "
                  "single-bit flip of fixed bit-field parts, every reserved/padding bit set, 5 over-wide values per "
                  "bit-field. programs = definitions, assignments = value assignments round-tripped, error_cases = inputs "
@@ -1197,7 +1246,7 @@ def run(ctx):
                  % (3 if ctx.quick else 4, len(ENV_ATOMS),
                     "" if ctx.quick else " (4-atom envelopes with the 3-value sets {min, pattern, max})",
                     "4 (24/32 bits: 3)" if ctx.quick else "4", 3 if ctx.quick else 5,
-                    "" if ctx.quick else " and 4-atom envelopes"))
+                    "" if ctx.quick else " and 4-atom envelopes", ndiag))
     c["exhaustive"] = True
     ctx.assumptions += [
         "LSB-first is 'basically reversed order' (codec.py): for an explicit len larger than the bit sum the unused "
@@ -1210,7 +1259,7 @@ def run(ctx):
 
 def replay(ctx, case):
     prog = case["prog"]
-    j = judge_prog(_listify(prog), int(case["size"]))
+    j = judge_prog(_listify(prog), int(case["size"]), int(case.get("ndiag", 5)))
     for v in j.out:
         ctx.violation(*v)
 
